@@ -1183,6 +1183,40 @@ def _as_operand(x):
     return None
 
 
+SINGLE = ('float16', 'float32', 'complex64')
+
+
+def _trivial_scalar(op, s):
+    """x op s is exact in every precision"""
+    v = s.expr if isinstance(s, SymScalar) else s
+    if isinstance(v, bool) or is_sym(v):
+        return False
+    if op in ('mul', 'div'):
+        return v in (1, -1, 1.0, -1.0)
+    if op in ('add', 'sub'):
+        return v == 0
+    return False
+
+
+def _round_single(out, trivial):
+    """double-precision scenario instances: an arithmetic result of single precision is rounded (uninterpreted rounding
+    `round32_`), unless the operation is exact in every precision.  Only scalar-valued (sum free) entries are wrapped."""
+    if not TRACK_NARROWING or out.dtype not in SINGLE or out._val is None or trivial:
+        return out
+    f = out._val
+
+    def val(idx):
+        t = f(idx)
+        if t.is_simple():
+            e = t.simple_expr()
+            if z3.is_rational_value(e) or z3.is_int_value(e):
+                return t
+            return Term.of(terms.R32(e))
+        return t
+    out._val = val
+    return out
+
+
 def scalar_term(x):
     if isinstance(x, SymScalar):
         return Term.of(x.real())
@@ -1280,6 +1314,7 @@ def binary(op, a, b):
         if dt in INTS and a.ival is not None and b.ival is not None and op in ('add', 'sub', 'mul'):
             fi = {'add': lambda x, y: x + y, 'sub': lambda x, y: x - y, 'mul': lambda x, y: x * y}[op]
             out.ival = lambda idx: fi(int_entry(a, ma(idx)), int_entry(b, mb(idx)))
+        _round_single(out, False)
         return derive(out, a, b)
     if isinstance(a, STensor):
         t, s, left = a, b, True
@@ -1303,6 +1338,7 @@ def binary(op, a, b):
         if (isinstance(si, int) and not isinstance(si, bool)) or (is_sym(si) and si.is_int()):
             fi = {'add': lambda x, y: x + y, 'sub': lambda x, y: x - y, 'mul': lambda x, y: x * y}[op]
             out.ival = (lambda idx: fi(t.ival(idx), to_int(si))) if left else (lambda idx: fi(to_int(si), t.ival(idx)))
+    _round_single(out, _trivial_scalar(op, s) and (left or op != 'div'))
     # multiplying by a scalar scales fro2 ; keep only what is certainly right
     return derive(out, t)
 
